@@ -66,4 +66,86 @@ theorem lossy_of_valid : ∀ (n : Nat) (bs : Bytes), bs.length = n → utf8Valid
                 rw [ih r.length (by omega) r rfl hv.2]
             · rw [if_neg h4] at hv; cases hv
 
+theorem utf8Valid_repl (r : Bytes) : utf8Valid (repl ++ r) = utf8Valid r := by
+  simp [repl, utf8Valid, second3, isCont]
+
+theorem utf8Valid_repl_nil : utf8Valid repl = true := by decide
+
+/-- whatever `from_utf8_lossy` returns is well-formed UTF-8 (it is a Rust `String`) -/
+theorem utf8Valid_lossy : ∀ (n : Nat) (bs : Bytes), bs.length = n → utf8Valid (lossy bs) = true := by
+  intro n
+  induction n using Nat.strongRecOn with
+  | ind n ih =>
+    intro bs hn
+    match bs, hn with
+    | [], _ => rw [lossy.eq_def]; rfl
+    | b :: rest, hn =>
+      simp only [List.length_cons] at hn
+      have hrest := ih rest.length (by omega) rest rfl
+      rw [lossy.eq_def]
+      simp only
+      by_cases h1 : b.toNat < 128
+      · rw [if_pos h1]; unfold utf8Valid; rw [if_pos h1]; exact hrest
+      · rw [if_neg h1]
+        by_cases h2 : 0xC2 ≤ b.toNat ∧ b.toNat ≤ 0xDF
+        · rw [if_pos h2]
+          match rest, hn, hrest with
+          | [], _, _ => exact utf8Valid_repl_nil
+          | c :: r, hn, hrest =>
+            simp only [List.length_cons] at hn
+            simp only
+            by_cases hc : isCont c = true
+            · rw [if_pos hc]; unfold utf8Valid; rw [if_neg h1, if_pos h2]
+              simp only [hc, Bool.true_and]; exact ih r.length (by omega) r rfl
+            · rw [if_neg hc, utf8Valid_repl]; exact hrest
+        · rw [if_neg h2]
+          by_cases h3 : 0xE0 ≤ b.toNat ∧ b.toNat ≤ 0xEF
+          · rw [if_pos h3]
+            match rest, hn, hrest with
+            | [], _, _ => exact utf8Valid_repl_nil
+            | c :: r, hn, hrest =>
+              simp only [List.length_cons] at hn
+              simp only
+              by_cases hs : second3 b c = true
+              · rw [if_pos hs]
+                match r, hn with
+                | [], _ => exact utf8Valid_repl_nil
+                | d :: r2, hn =>
+                  simp only [List.length_cons] at hn
+                  simp only
+                  by_cases hd : isCont d = true
+                  · rw [if_pos hd]; unfold utf8Valid; rw [if_neg h1, if_neg h2, if_pos h3]
+                    simp only [hs, hd, Bool.true_and]; exact ih r2.length (by omega) r2 rfl
+                  · rw [if_neg hd, utf8Valid_repl]; exact ih (d :: r2).length (by simp; omega) (d :: r2) rfl
+              · rw [if_neg hs, utf8Valid_repl]; exact hrest
+          · rw [if_neg h3]
+            by_cases h4 : 0xF0 ≤ b.toNat ∧ b.toNat ≤ 0xF4
+            · rw [if_pos h4]
+              match rest, hn, hrest with
+              | [], _, _ => exact utf8Valid_repl_nil
+              | c :: r, hn, hrest =>
+                simp only [List.length_cons] at hn
+                simp only
+                by_cases hs : second4 b c = true
+                · rw [if_pos hs]
+                  match r, hn with
+                  | [], _ => exact utf8Valid_repl_nil
+                  | d :: r2, hn =>
+                    simp only [List.length_cons] at hn
+                    simp only
+                    by_cases hd : isCont d = true
+                    · rw [if_pos hd]
+                      match r2, hn with
+                      | [], _ => exact utf8Valid_repl_nil
+                      | e :: r3, hn =>
+                        simp only [List.length_cons] at hn
+                        simp only
+                        by_cases he : isCont e = true
+                        · rw [if_pos he]; unfold utf8Valid; rw [if_neg h1, if_neg h2, if_neg h3, if_pos h4]
+                          simp only [hs, hd, he, Bool.true_and]; exact ih r3.length (by omega) r3 rfl
+                        · rw [if_neg he, utf8Valid_repl]; exact ih (e :: r3).length (by simp; omega) (e :: r3) rfl
+                    · rw [if_neg hd, utf8Valid_repl]; exact ih (d :: r2).length (by simp; omega) (d :: r2) rfl
+                · rw [if_neg hs, utf8Valid_repl]; exact hrest
+            · rw [if_neg h4, utf8Valid_repl]; exact hrest
+
 end RtcModel.C15
